@@ -150,6 +150,59 @@ def gen_program(rnd, pid, cls='A', nrt_only=False, feats=('send', 'tempo', 'spaw
                                      tail=rnd.choice([0, TU, TU // 2]), cls=cls))
 
 
+def gen_user_program(rnd, pid):
+    """RT only: plain threads act WHILE clock threads are inside routine bodies ("points": a preemption point before
+    every instruction of a body): they send bundles (U) and play a routine without naming a clock (UP)."""
+    p = gen_program(rnd, pid, cls='A', feats=('send', 'tempo', 'spawn', 'tempo'))
+    p['points'] = True
+    offs = [0, TU // 8, TU // 4, TU // 2, TU, 3 * TU // 2, 2 * TU]
+    body = []
+    for _ in range(rnd.randint(1, 4)):
+        if rnd.random() < 0.6:
+            body.append(I('Y', a=rnd.choice(DELTAS)))
+        else:
+            lat, kind = rnd.choice(LATS)
+            body.append(I('S', a=lat, b=kind, s='/ru%d' % len(body)))
+    p['routines']['ru'] = body
+    ops = [I('UP', s='ru', c=str(rnd.choice(offs)))]
+    for k in range(rnd.randint(1, 3)):
+        lat, kind = rnd.choice(LATS)
+        ops.append(I('U', a=lat, b=kind, s='/u%d' % k, c=str(rnd.choice(offs))))
+    rnd.shuffle(ops)
+    p['main'] += ops
+    return p
+
+
+def user_programs(ctx, n, base_id, sigf, mine, lenient=False):
+    """run the user-thread family in RT and report what belongs to the calling property"""
+    import random
+    rnd = random.Random(ctx.seed + 4242)
+    progs = [dict(gen_user_program(rnd, base_id + i), strategy=dict(kind='random', seed=ctx.seed * 31 + i, p_stay=rnd.choice([0.0, 0.5])))
+             for i in range(n)]
+    tr = run_mode(ctx, progs, 'rt')
+    for t in tr:
+        t['id'] += 20_000_000
+        t['lenient'] = lenient
+    v = validate(ctx, tr)
+    ctx.cov['evaluations'] += len(tr)
+    ctx.cov['user_thread_programs'] = len(tr)
+    inside = 0
+    for t in tr:
+        if any(e['k'] == 'ubndl' and e.get('r2') for e in t['ev']) or any(e['k'] == 'uplay' for e in t['ev']):
+            inside += 1
+            ctx.nontrivial(['user', t['prog']['routines'], t['prog']['main']])
+        r = v[t['id']]
+        if r is None:
+            continue
+        at, why = r
+        if why in mine:
+            ctx.violation(sigf('rt', t, at, why),
+                          'RT execution with plain threads acting while routines run deviates from the logical-time reference (%s) at event %d' % (why, at),
+                          dict(kind='time-program', mode='rt', program=t['prog'], rejected_at=at, why=why, events=t['ev'][:at + 1]))
+    ctx.cov['user_thread_programs_acting_inside_a_routine'] = inside
+    return tr, v
+
+
 def gen_rand_program(rnd, pid):
     """random-stream isolation and inheritance: a seeded parent draws, creates children that inherit its
     generator or get their own seed (set by themselves or by the parent, as Pseed does), everybody keeps drawing"""
@@ -287,6 +340,7 @@ def strip(tr):
     t = dict(tr)
     t['prog'] = {k: v for k, v in tr['prog'].items() if k in ('clocks', 'routines', 'main', 'funcs')}
     t['prog'].setdefault('funcs', [])
+    t['lenient'] = bool(tr.get('lenient', False))
     for k in ('broken', 'rawsha'):
         t.pop(k, None)
     return t
